@@ -4,3 +4,4 @@ pub mod expr;
 pub mod isa;
 pub mod program;
 pub mod banks;
+pub mod render;
